@@ -2,5 +2,5 @@
 # run the given checks (quick) against a scratch worktree that has a seeded change applied,
 # without touching /repo (development aid: VERIF_REPO, see ./check)
 wt=$1; shift
-cd /verif
+cd ${VERIF_HOME:-/verif}
 for c in "$@"; do VERIF_REPO=$wt ./check $c --tier ${TIER:-quick} 2>&1 | grep -E "VIOLATION|KNOWN|^\[" | head -4; done
